@@ -2121,7 +2121,7 @@ func (t *tr) block(stmts []ast.Stmt, k cont) string {
 			case isBlock:
 				elseB = t.block(append(append([]ast.Stmt{}, eb.List...), stmts[1:]...), k)
 			default:
-				elseB = t.bad("else-if next to an open error assignment", x)
+				elseB = t.elseIfOpenErr(x, stmts[1:], k) // translate_ext.go
 			}
 			t.indent--
 			return "(if " + t.expr(x.Cond) + " then\n" + t.pad() + "  " + thenB + "\n" + t.pad() + "else\n" + t.pad() + elseB + ")"
